@@ -189,12 +189,7 @@ macro_rules! impl_maybenan_for_opt_never_nan {
                 let not_nan = remove_nan_mut(view);
                 // This is safe because `remove_nan_mut` has removed the `None`
                 // values, and `NotNone<$ty>` is a thin wrapper around `Option<$ty>`.
-                unsafe {
-                    ArrayViewMut1::from_shape_ptr(
-                        not_nan.dim(),
-                        not_nan.as_ptr() as *mut NotNone<$ty>,
-                    )
-                }
+                unsafe { cast_view_mut(not_nan) }
             }
         }
     };
